@@ -64,6 +64,11 @@ func hostileGrammar(r *rand.Rand, withActions bool) *gram.Grammar {
 		{Head: start, Alts: []gram.SAlt{{Body: []gram.Sym{{Kind: gram.SNT, Name: item}}}, {Body: []gram.Sym{{Kind: gram.SNT, Name: start}, {Kind: gram.SNT, Name: item}}}}},
 		x,
 	}
+	if r.Intn(2) == 0 {
+		// the pseudo terminal 'empty' gets a number of its own, before the terminals first
+		// mentioned after it
+		g.NTs[0].Alts[0] = gram.SAlt{Empty: true}
+	}
 	if withActions {
 		extras := []string{"\"`\"", "'>'", "\"$\"", "\"a>b\"", "\"%s\"", "`raw`", "\"*/\"", "1 > 0"}
 		idx := 0
